@@ -219,6 +219,7 @@ func replayNative(id string, spec *ReplaySpec, v *Violation, repo string) {
 		}
 		ov[filepath.Join(pkgDir, "zz_verif_"+filepath.Base(f))] = substPkg(real, pkgName, d)
 	}
+	addRefPkgs(ov, spec.RefPkgs, repo)
 	// schedule replays: instrumented copies of the files whose atomics are scheduling points
 	for _, rel := range spec.Instrument {
 		src, err := os.ReadFile(filepath.Join(repo, rel))
@@ -332,6 +333,7 @@ func crossValidate(id string, u *Unit, samples []*XSample, repo string) (ok, fai
 		}
 		ov[filepath.Join(pkgDir, "zz_verif_"+filepath.Base(f))] = substPkg(real, pkgName, d)
 	}
+	addRefPkgs(ov, u.RefPkgs, repo)
 	for _, rel := range u.XInstr {
 		src, err := os.ReadFile(filepath.Join(repo, rel))
 		if err != nil {
@@ -369,4 +371,31 @@ func crossValidate(id string, u *Unit, samples []*XSample, repo string) (ok, fai
 		}
 	}
 	return 0, 0, "(native run produced no report; see " + filepath.Join(d, base+".log") + ")"
+}
+
+func addRefPkgs(ov map[string]string, refs map[string]string, repo string) {
+	for virt, realDir := range refs {
+		rd := realDir
+		if strings.HasPrefix(rd, "$GOROOT") {
+			rd = strings.Replace(rd, "$GOROOT", goroot(), 1)
+		}
+		ents, err := os.ReadDir(rd)
+		if err != nil {
+			continue
+		}
+		for _, e := range ents {
+			n := e.Name()
+			if strings.HasSuffix(n, ".go") && !strings.HasSuffix(n, "_test.go") {
+				ov[filepath.Join(repo, virt, n)] = filepath.Join(rd, n)
+			}
+		}
+	}
+}
+
+func goroot() string {
+	out, err := exec.Command("go", "env", "GOROOT").Output()
+	if err != nil {
+		return "/usr/lib/go"
+	}
+	return strings.TrimSpace(string(out))
 }
